@@ -70,6 +70,7 @@ package parser
 //@ func parseName
 //@   props C03
 //@   nosafety
+//@   assigns class:parser.Parser.PrevEnd, class:parser.Parser.Token, class:ast., class:E|
 //@   requires parser != nil && parser.Source != nil
 //@   ensures result1 == nil ==> result0 != nil && old(parser.Token.Kind) == lexer.NAME && result0.Value == old(parser.Token.Value)
 //@   ensures old(parser.Token.Kind) != lexer.NAME ==> result1 != nil
@@ -78,6 +79,7 @@ package parser
 //@ func parseNamed
 //@   props C03
 //@   nosafety
+//@   assigns class:parser.Parser.PrevEnd, class:parser.Parser.Token, class:ast., class:E|
 //@   requires parser != nil && parser.Source != nil
 //@   ensures result1 == nil ==> result0 != nil && old(parser.Token.Kind) == lexer.NAME && result0.Name != nil
 //@   ensures old(parser.Token.Kind) != lexer.NAME ==> result1 != nil
@@ -86,6 +88,7 @@ package parser
 //@ func parseType
 //@   props C03 C09
 //@   nosafety
+//@   assigns class:parser.Parser.PrevEnd, class:parser.Parser.Token, class:ast., class:E|
 //@   requires parser != nil && parser.Source != nil
 //@   ensures err == nil ==> ttype != nil
 //@   ensures old(parser.Token.Kind) != lexer.BRACKET_L && old(parser.Token.Kind) != lexer.NAME ==> err != nil
@@ -104,6 +107,7 @@ package parser
 //@ func reverse
 //@   props C03
 //@   nosafety
+//@   assigns class:parser.Parser.PrevEnd, class:parser.Parser.Token, class:ast., class:E|
 //@   requires parser != nil && parser.Source != nil
 //@   at call expect: assert arg1 == openKind && calls("skip") == 0 && calls("parseFn") == 0
 //@   at call skip: assert arg1 == closeKind
@@ -116,6 +120,7 @@ package parser
 //@ func parseSelectionSet
 //@   props C03 C18
 //@   nosafety
+//@   assigns class:parser.Parser.PrevEnd, class:parser.Parser.Token, class:ast., class:E|
 //@   requires parser != nil && parser.Source != nil
 //@   at call reverse: assert arg0 == parser && arg1 == lexer.BRACE_L && arg3 == lexer.BRACE_R && arg4
 //@   loop 1 invariant len(selections) == rangeindex + 1
@@ -126,6 +131,7 @@ package parser
 //@ func parseSelection
 //@   props C03
 //@   nosafety
+//@   assigns class:parser.Parser.PrevEnd, class:parser.Parser.Token, class:ast., class:E|
 //@   requires parser != nil && parser.Source != nil
 //@   at call peek: assert arg1 == lexer.SPREAD
 //@   at call parseFragment: assert parser.Token.Kind == lexer.SPREAD
@@ -135,6 +141,7 @@ package parser
 //@ func parseField
 //@   props C03 C18
 //@   nosafety
+//@   assigns class:parser.Parser.PrevEnd, class:parser.Parser.Token, class:ast., class:E|
 //@   requires parser != nil && parser.Source != nil
 //@   at call parseName#1: assert calls("skip") == 0
 //@   at call skip: assert arg1 == lexer.COLON && calls("parseName") == 1
@@ -154,6 +161,7 @@ package parser
 //@ func parseArguments
 //@   props C03
 //@   nosafety
+//@   assigns class:parser.Parser.PrevEnd, class:parser.Parser.Token, class:ast., class:E|
 //@   requires parser != nil && parser.Source != nil
 //@   at call peek: assert arg1 == lexer.PAREN_L
 //@   at call reverse: assert arg1 == lexer.PAREN_L && arg3 == lexer.PAREN_R && arg4 && parser.Token.Kind == lexer.PAREN_L
@@ -164,6 +172,7 @@ package parser
 //@ func parseArgument
 //@   props C03 C18
 //@   nosafety
+//@   assigns class:parser.Parser.PrevEnd, class:parser.Parser.Token, class:ast., class:E|
 //@   requires parser != nil && parser.Source != nil
 //@   at call parseName: assert calls("expect") == 0
 //@   at call expect: assert arg1 == lexer.COLON && calls("parseName") == 1 && calls("parseValueLiteral") == 0
@@ -174,6 +183,7 @@ package parser
 //@ func parseFragment
 //@   props C03 C18
 //@   nosafety
+//@   assigns class:parser.Parser.PrevEnd, class:parser.Parser.Token, class:ast., class:E|
 //@   requires parser != nil && parser.Source != nil
 //@   at call expect: assert arg1 == lexer.SPREAD && calls("peek") == 0
 //@   at call parseFragmentName: assert parser.Token.Kind == lexer.NAME && parser.Token.Value != "on"
@@ -187,6 +197,7 @@ package parser
 //@ func parseFragmentDefinition
 //@   props C03 C18
 //@   nosafety
+//@   assigns class:parser.Parser.PrevEnd, class:parser.Parser.Token, class:ast., class:E|
 //@   requires parser != nil && parser.Source != nil
 //@   at call expectKeyWord#1: assert arg1 == "fragment" && calls("parseFragmentName") == 0
 //@   at call parseFragmentName: assert calls("expectKeyWord") == 1
@@ -200,6 +211,7 @@ package parser
 //@ func parseFragmentName
 //@   props C03
 //@   nosafety
+//@   assigns class:parser.Parser.PrevEnd, class:parser.Parser.Token, class:ast., class:E|
 //@   requires parser != nil && parser.Source != nil
 //@   ensures old(parser.Token.Value) == "on" ==> result1 != nil
 //@   at call parseName: assert parser.Token.Value != "on"
@@ -208,6 +220,7 @@ package parser
 //@ func parseDirectives
 //@   props C03
 //@   nosafety
+//@   assigns class:parser.Parser.PrevEnd, class:parser.Parser.Token, class:ast., class:E|
 //@   requires parser != nil && parser.Source != nil
 //@   at call peek: assert arg1 == lexer.AT
 //@   at call parseDirective: assert parser.Token.Kind == lexer.AT
@@ -215,6 +228,7 @@ package parser
 //@ func parseDirective
 //@   props C03 C18
 //@   nosafety
+//@   assigns class:parser.Parser.PrevEnd, class:parser.Parser.Token, class:ast., class:E|
 //@   requires parser != nil && parser.Source != nil
 //@   at call expect: assert arg1 == lexer.AT && calls("parseName") == 0
 //@   at call parseName: assert calls("expect") == 1 && calls("parseArguments") == 0
@@ -225,6 +239,7 @@ package parser
 //@ func parseVariable
 //@   props C03 C18
 //@   nosafety
+//@   assigns class:parser.Parser.PrevEnd, class:parser.Parser.Token, class:ast., class:E|
 //@   requires parser != nil && parser.Source != nil
 //@   at call expect: assert arg1 == lexer.DOLLAR && calls("parseName") == 0
 //@   at call parseName: assert calls("expect") == 1
@@ -235,6 +250,7 @@ package parser
 //@ func parseVariableDefinitions
 //@   props C03
 //@   nosafety
+//@   assigns class:parser.Parser.PrevEnd, class:parser.Parser.Token, class:ast., class:E|
 //@   requires parser != nil && parser.Source != nil
 //@   at call peek: assert arg1 == lexer.PAREN_L
 //@   at call reverse: assert arg1 == lexer.PAREN_L && arg3 == lexer.PAREN_R && arg4 && parser.Token.Kind == lexer.PAREN_L
@@ -244,6 +260,7 @@ package parser
 //@ func parseVariableDefinition
 //@   props C03 C18
 //@   nosafety
+//@   assigns class:parser.Parser.PrevEnd, class:parser.Parser.Token, class:ast., class:E|
 //@   requires parser != nil && parser.Source != nil
 //@   at call parseVariable: assert calls("expect") == 0
 //@   at call expect: assert arg1 == lexer.COLON && calls("parseVariable") == 1 && calls("parseType") == 0
@@ -256,6 +273,7 @@ package parser
 //@ func parseOperationDefinition
 //@   props C03 C18
 //@   nosafety
+//@   assigns class:parser.Parser.PrevEnd, class:parser.Parser.Token, class:ast., class:E|
 //@   requires parser != nil && parser.Source != nil
 //@   at call peek#1: assert arg1 == lexer.BRACE_L
 //@   at call parseSelectionSet#1: assert parser.Token.Kind == lexer.BRACE_L && calls("parseOperationType") == 0
@@ -271,6 +289,7 @@ package parser
 //@ func parseOperationType
 //@   props C03
 //@   nosafety
+//@   assigns class:parser.Parser.PrevEnd, class:parser.Parser.Token, class:ast., class:E|
 //@   requires parser != nil && parser.Source != nil
 //@   at call expect: assert arg1 == lexer.NAME
 //@   ensures result1 == nil ==> result0 == "query" || result0 == "mutation" || result0 == "subscription"
@@ -280,6 +299,7 @@ package parser
 //@ func parseValueLiteral
 //@   props C03 C18
 //@   nosafety
+//@   assigns class:parser.Parser.PrevEnd, class:parser.Parser.Token, class:ast., class:E|
 //@   requires parser != nil && parser.Source != nil
 //@   at call parseList: assert parser.Token.Kind == lexer.BRACKET_L && arg1 == isConst
 //@   at call parseObject: assert parser.Token.Kind == lexer.BRACE_L && arg1 == isConst
@@ -296,6 +316,7 @@ package parser
 //@ func parseList
 //@   props C03 C18
 //@   nosafety
+//@   assigns class:parser.Parser.PrevEnd, class:parser.Parser.Token, class:ast., class:E|
 //@   requires parser != nil && parser.Source != nil
 //@   at call reverse: assert arg1 == lexer.BRACKET_L && arg3 == lexer.BRACKET_R && !arg4
 //@   loop 1 invariant len(values) == rangeindex + 1
@@ -304,6 +325,7 @@ package parser
 //@ func parseObject
 //@   props C03 C18
 //@   nosafety
+//@   assigns class:parser.Parser.PrevEnd, class:parser.Parser.Token, class:ast., class:E|
 //@   requires parser != nil && parser.Source != nil
 //@   at call expect: assert arg1 == lexer.BRACE_L && calls("skip") == 0
 //@   at call skip: assert arg1 == lexer.BRACE_R
@@ -312,6 +334,7 @@ package parser
 //@ func parseObjectField
 //@   props C03 C18
 //@   nosafety
+//@   assigns class:parser.Parser.PrevEnd, class:parser.Parser.Token, class:ast., class:E|
 //@   requires parser != nil && parser.Source != nil
 //@   at call parseName: assert calls("expect") == 0
 //@   at call expect: assert arg1 == lexer.COLON && calls("parseName") == 1
@@ -322,7 +345,16 @@ package parser
 //@ func parseDocument
 //@   props C03 C18
 //@   nosafety
+//@   assigns class:parser.Parser.PrevEnd, class:parser.Parser.Token, class:ast., class:E|
 //@   requires parser != nil && parser.Source != nil
 //@   at call skip: assert arg1 == lexer.EOF
 //@   at call item: assert arg0 == parser && (parser.Token.Kind == lexer.BRACE_L || parser.Token.Kind == lexer.NAME || parser.Token.Kind == lexer.STRING || parser.Token.Kind == lexer.BLOCK_STRING)
 //@   loop 1 ensures len(nodes) == atloop(1, len(nodes)) + 1 && calls("item") == atloop(1, calls("item")) + 1
+
+// frames of the productions not (yet) under a functional contract
+//@ func parseTypeSystemDefinition
+//@   trusted
+//@   assigns class:parser.Parser.PrevEnd, class:parser.Parser.Token, class:ast., class:E|
+//@ func parseStringLiteral
+//@   trusted
+//@   assigns class:parser.Parser.PrevEnd, class:parser.Parser.Token, class:ast., class:E|
